@@ -316,7 +316,8 @@ def _run(case):
             R.fail("saveqvectors=False but a per-vector file was written", sig=dict(sig, clause="qvectors_file"), sub="C04.csv")
     R.outcome({c: res[c].values for c in ["q"] + cols}, nd=6)
     spread = float(np.ptp(res["Sq"].values)) if len(res) > 1 else 0.0
-    R.nontrivial = (len(groups) >= 2 and (spread > 1e-6 or N == 1)) or len(qint) == 1
+    averaged = any(len(idx) >= 2 and float(np.ptp(ref["Sq"][idx])) > 1e-6 for _, idx in groups)
+    R.nontrivial = (len(groups) >= 2 and (spread > 1e-6 or N == 1)) or len(qint) == 1 or averaged
     return R
 
 
@@ -354,7 +355,7 @@ def subs(tier, seed):
             rule="six particles at fixed generic positions; every surjective map of the six particles onto K species, K=1..6 "
                  "(4683 maps) per (dimension, box, wave-vector list, frames); every |q| row of every column compared with the "
                  "loop reference (rounded-interval oracle), plus column names, grouping, sum rule, non-negativity; "
-                 "non-trivial = >= 2 |q| groups with different S",
+                 "non-trivial = >= 2 |q| groups with different S, or a group that averages >= 2 vectors with different S",
             bounds={"type_maps": 4683, "geometries": 2 if tier == "quick" else 10}),
         Sub("C04.explicit", gen_explicit, run,
             rule="{2D,3D} x {Lx=Ly box, unequal box} x placements {generic6, 2^d lattice (Bragg/zero), cluster5, pair, single"
